@@ -23,7 +23,7 @@ INFO = dict(
   stubs=['virtual-time loop (3.1)', 'time source = loop clock', 'math.ceil/float/int on symbolic reals as module globals of scales.timer_queue (3.8)'],
   assumptions=['A1 zero-time code', 'A2 exact reals', 'A3 equal-time timers fire in registration order'],
 )
-EXPECT_COVERS = ['deadline-in-past', 'new-head-while-sleeping', 'equal-rounded-deadlines', 'cancel-before-deadline',
+EXPECT_COVERS = ['bulk-cancel-while-worker-sleeps', 'deadline-in-past', 'new-head-while-sleeping', 'equal-rounded-deadlines', 'cancel-before-deadline',
                  'cancel-current-head', 'same-slice-schedules', 'cancel-too-late']
 
 
@@ -44,6 +44,7 @@ def jobs(tier):
     for res in (0.01, 0, 1):
       for nc in range(0, 3):
         for cset in itertools.combinations(range(3), nc): add(3, res, cset)
+  js.append(dict(name='bulk-cancel-n40', k=40, res=0.01, cancels=[], bulk=True, cost=500, shards=4, shard_depth=2))
   return js
 
 
@@ -52,7 +53,42 @@ def rounded(d, res):
   return stubs.sym_int(stubs.sym_ceil(stubs.sym_float(d) / time_const(res))) * time_const(res)
 
 
+def bulk_body(job):
+  """many pending actions, most of them cancelled in one burst at a symbolic instant while the worker sleeps on the
+  (cancelled) head; the few live ones have symbolic deadlines"""
+  N = job['k']; res = job['res']
+  def body():
+    vtime.setup()
+    q = tqm.TimerQueue(time_source=vtime.now, resolution=time_const(res))
+    log = []
+    live = (7, 19, 33, 39)
+    d = {}; cancel = {}
+    for i in range(N):
+      if i == 19: d[i] = fresh_real('d%d' % i, vtime.T0 + 1, vtime.T0 + 4)       # one live action has a symbolic deadline
+      else: d[i] = time_const(vtime.T0 + 1) + time_const(0.05) * i
+      cancel[i] = q.Schedule(d[i], (lambda i=i: log.append((i, vtime.now()))))
+    at = fresh_real('burst_at', 0, 1, hi_strict=True)
+    if hdecide(at > 0): gevent.sleep(at)
+    for i in range(N):
+      if i not in live: cancel[i]()
+    cover('bulk-cancel-while-worker-sleeps')
+    gevent.sleep(10)
+    for i in range(N):
+      runs = [t for (j, t) in log if j == i]
+      if i in live:
+        check('bulk.live-ran-once@%d' % i, len(runs) == 1)
+        if len(runs) == 1:
+          check('bulk.live-at-rounded-deadline@%d' % i, runs[0] == rounded(d[i], res))
+          check('bulk.never-early@%d' % i, runs[0] >= d[i])
+      else:
+        check('bulk.cancelled-never-runs@%d' % i, len(runs) == 0)
+    check('no-greenlet-error', not vtime.ERRORS)
+    q._worker.kill(block=False)
+  return body
+
+
 def make_body(job):
+  if job.get('bulk'): return bulk_body(job)
   k = job['k']; res = job['res']; cancels = set(job['cancels'])
   def body():
     vtime.setup()
